@@ -978,8 +978,9 @@ class FastSyncGroup(SyncGroupBase, XDP):
     """A :class:`SyncGroup` where all devices are EBPF programs"""
     license = "GPL"
 
-    properties = ArrayMap()
-    wkc_errors = properties.globalVar('I')
+    # DeviceVars are declared in this map, the process sync group shares it
+    properties = ProcessSyncGroup.properties
+    wkc_errors = ProcessSyncGroup.wkc_errors
 
     def __init__(self, ec, devices, **kwargs):
         super().__init__(ec, devices, subprograms=devices, **kwargs)
